@@ -28,6 +28,7 @@ var globalSwaps = map[string][2]string{
 // per-directory import swaps
 var dirSwaps = map[string]map[string][2]string{
 	"lib/atomicfile":    {"runtime": {"runtime", modPath + "/zz_verif/simruntime"}},
+	"cmdline/remotecmd": {"net": {"net", modPath + "/zz_verif/simnet"}},
 }
 
 // directories whose condition-less loops get a LoopTick
